@@ -1284,3 +1284,468 @@ PROPS["C17"] = {
     "assumptions": ["user-defined operations are the harness library's (linear in the adjoint)"],
     "post": ["linearity"],
 }
+
+
+# ======================================================================================
+# histories over a pool of handles (C09, C10, C12, C18, C08)
+
+class History(randprog.Builder):
+    """a Builder that also emits handle operations; [node] identifies the array a variable denotes"""
+
+    def __init__(self, rng, **kw):
+        randprog.Builder.__init__(self, rng, **kw)
+        self.next_node = 0
+        self.grad_obs = []        # (instruction index, variable index)
+
+    def _node(self, v):
+        if not hasattr(v, "node"):
+            v.node = self.next_node
+            self.next_node += 1
+        return v.node
+
+    def leaf(self, *a, **kw):
+        v = randprog.Builder.leaf(self, *a, **kw)
+        self._node(v)
+        return v
+
+    def result(self, *a, **kw):
+        v = randprog.Builder.result(self, *a, **kw)
+        self._node(v)
+        return v
+
+    def clone(self, v):
+        w = randprog.Var(0, v.dims, v.tracked, v.pos, v.exact, v.mag)
+        w.is_op = v.is_op
+        w.alias = True
+        w.node = self._node(v)
+        w.origin_leaf = v.leaf or getattr(v, "origin_leaf", False)
+        self.emit(("clone", v.idx), w)
+        return w
+
+    def drop(self, v):
+        self.emit(("drop", v.idx))
+        v.live = False
+
+    def set_flag(self, v, how):
+        self.emit((how, v.idx))
+        if how in ("tracked", "start"):
+            v.tracked = True
+        else:
+            v.tracked = False
+
+    def observe_grads(self, which=None):
+        for v in list(self.vars.values()):
+            if v.live and (which is None or which(v)):
+                i = self.emit(("grad", v.idx))
+                self.grad_obs.append((i, v.idx))
+
+
+def lenient_for(h):
+    """gradient observations on handles of operation nodes: corgi may hold no gradient where the
+    model stores one (which handle's keep flag decides is not part of any property)"""
+    return [i for i, vi in h.grad_obs if h.vars[vi].is_op]
+
+
+def gen_C09(tier, rng):
+    cases = []
+    count = 500 if tier == "quick" else 6000
+    for n in range(count):
+        exact = n % 5 != 4
+        h = History(rng, exact=exact, max_rank=2, track_p=0.6)
+        steps = rng.randint(2, 10)
+        for _ in range(steps):
+            x = rng.random()
+            live = h.live_vars()
+            if x < 0.55 or not live:
+                h.step()
+            elif x < 0.65:
+                h.clone(rng.choice(live))
+            elif x < 0.90:
+                v = rng.choice(live)
+                how = rng.choice(["tracked", "untracked", "start", "stop"])
+                h.set_flag(v, how)
+            else:
+                v = rng.choice(live)
+                h.emit(("obs", v.idx))
+        ops = [v for v in h.live_vars() if v.is_op]
+        passes = rng.randint(1, 3)
+        for _ in range(passes):
+            root = rng.choice(ops) if ops and rng.random() < 0.85 else rng.choice(h.live_vars())
+            h.emit(("backward", root.idx, h.seed_for(root)))
+            h.observe_grads()
+            # the flags after the pass, read back through the public API
+            for v in h.live_vars():
+                if rng.random() < 0.5:
+                    how = rng.choice(["start", "stop"])
+                    h.set_flag(v, how)
+        for v in h.live_vars():
+            h.emit(("obs", v.idx))
+        c = case("flags", h.ins, "flags:%s" % ("exact" if exact else "float"),
+                 **({} if exact else {"rtol": 1e-7}))
+        c["lenient"] = lenient_for(h)
+        cases.append(c)
+    # results of untracked operands keep no reference to them: the operand can be unwrapped
+    # while the result is alive (reshape shares the buffer by design and is excluded)
+    unary = [("neg",), ("scale", 2.0), ("powf", 2.0), ("exp",), ("relu",), ("sigmoid",), ("sum", 1), ("softmax",)]
+    for op in unary + [("add",), ("mul",), ("sub",), ("div",), ("matmul", False, False), ("conv", 1, 1), ("axpy", 0.5)]:
+        for tracked_other in (False, True):
+            dims = [2, 2] if op[0] != "conv" else [1, 2, 2]
+            ins = [("leaf", False, dims, [1.0, 2.0, 3.0, 4.0])]
+            args = [0]
+            if op[0] in ("add", "mul", "sub", "div", "matmul", "axpy"):
+                ins.append(("leaf", tracked_other, dims, [2.0, 1.0, 1.0, 3.0]))
+                args = [0, 1]
+            elif op[0] == "conv":
+                ins.append(("leaf", tracked_other, [1, 1, 1, 1], [2.0]))
+                args = [0, 1]
+            elif tracked_other:
+                continue
+            ins.append(("op", op, args))
+            if not tracked_other:
+                ins.append(("takevec", 0))
+                ins.append(("obs", len(args)))
+            cases.append(case("noref", ins, "untracked_result:%s" % op[0]))
+    # only the additive term of matmul tracked
+    for shape_c in ([2], [2, 2], [1, 2], [1]):
+        for mask in itertools.product((False, True), repeat=3):
+            ins = [("leaf", mask[0], [2, 2], [1.0, 2.0, 3.0, 4.0]), ("leaf", mask[1], [2, 2], [0.0, 1.0, 1.0, 0.0]),
+                   ("leaf", mask[2], shape_c, iota(prod(shape_c), 5.0)), ("op", ("matmul", False, True), [0, 1, 2]),
+                   ("backward", 3, None), ("grad", 0), ("grad", 1), ("grad", 2), ("obs", 3)]
+            cases.append(case("bias_tracking", ins, "matmul_additive_term"))
+    return cases
+
+
+PROPS["C09"] = {
+    "gen": gen_C09,
+    "rule": "seeded random histories: 2-10 steps mixing operations (all kinds, broadcasting) with clone, tracked(), "
+            "untracked(), start_tracking(), stop_tracking() on arbitrary live handles (leaves, intermediates, clones), "
+            "then 1-3 passes from random nodes, each followed by the gradient of every live handle and further flag "
+            "read-backs (the previous-flag return values); finally every handle's flag, values and gradient; plus, for "
+            "every operation, a result of untracked operands followed by Vec::from(operand) (must succeed), and "
+            "matmul with every tracking mask over (a, b, additive term); compared with the model; a gradient the model "
+            "stores on an intermediate but corgi does not is tolerated (keep-flag choice, outside the property); "
+            "distinct = distinct program text",
+    "exhaustive": {"quick": False, "thorough": False},
+    "assumptions": [],
+}
+
+
+# ======================================================================================
+# C10 additivity across passes
+
+def gen_C10(tier, rng):
+    cases = []
+    count = 300 if tier == "quick" else 4000
+    g = 0
+    for n in range(count):
+        h = History(rng, exact=True, max_rank=2, track_p=0.85)
+        for _ in range(rng.randint(2, 4)):
+            h.leaf(h.rand_dims(rng.randint(1, 2)))
+        passes = []          # instruction indices of the backward instructions
+        clears = []          # (instruction index, variable)
+        for _ in range(rng.randint(3, 12)):
+            x = rng.random()
+            ops = [v for v in h.live_vars() if v.is_op]
+            if x < 0.5 or not ops:
+                h.step()
+            elif x < 0.85:
+                # same result again, an interior node, or a result containing earlier ones
+                root = rng.choice(ops)
+                i = h.emit(("backward", root.idx, h.seed_for(root)))
+                passes.append(i)
+                h.observe_grads(lambda v: v.leaf or v.is_op)
+            elif x < 0.93:
+                v = rng.choice([v for v in h.live_vars() if v.leaf or v.is_op])
+                i = h.emit((rng.choice(["cleargrad", "gradmutnone"]), v.idx))
+                clears.append((i, v.idx))
+            else:
+                cands = [v for v in ops if rng.random() < 0.5]
+                if cands:
+                    h.drop(cands[0])
+        if not passes:
+            ops = [v for v in h.live_vars() if v.is_op]
+            if not ops:
+                continue
+            root = ops[-1]
+            passes.append(h.emit(("backward", root.idx, None)))
+        h.observe_grads(lambda v: v.leaf)
+        final = [(i, vi) for i, vi in h.grad_obs[-len([v for v in h.live_vars() if v.leaf]):]]
+        g += 1
+        c = case("history", h.ins, "history:%dpasses" % min(len(passes), 4))
+        c["lenient"] = lenient_for(h)
+        c["group"] = g
+        c["role"] = "all"
+        c["final"] = final
+        c["passes"] = passes
+        c["clears"] = clears
+        c["node_of"] = {v.idx: h._node(v) for v in h.vars.values()}
+        cases.append(c)
+        # the stand-alone passes: the same construction with every other pass (and every clear) replaced
+        # by an observation, so that variable numbering is unchanged
+        for k, pi in enumerate(passes):
+            ins = []
+            for j, ins_j in enumerate(h.ins):
+                if (ins_j[0] == "backward" and j != pi) or ins_j[0] in ("cleargrad", "gradmutnone"):
+                    ins.append(("grad", ins_j[1]))
+                else:
+                    ins.append(ins_j)
+            s = case("solo", ins, "standalone")
+            s["group"] = g
+            s["role"] = "solo%d" % k
+            s["final"] = final
+            s["adjudicate"] = [i for i, _ in final]
+            cases.append(s)
+    return cases
+
+
+def post_additivity(cases, rust, model):
+    """on corgi's own output: the final gradient of every leaf equals the sum of the gradients the passes
+    since its last clear produce when each is run alone on a fresh instance of the same graph"""
+    fails = []
+    n = 0
+    groups = {}
+    for i, c in enumerate(cases):
+        if c.get("group") is not None and str(c.get("role", "")).startswith(("all", "solo")):
+            groups.setdefault(c["group"], {})[c["role"]] = i
+    for g, roles in groups.items():
+        if "all" not in roles:
+            continue
+        ia = roles["all"]
+        c = cases[ia]
+        if any(any(o in ("panic", "timeout") for o in rust[i]) for i in roles.values()):
+            continue
+        n += 1
+        for (gi, var) in c["final"]:
+            node = c["node_of"][var]
+            last_clear = max([ci for ci, cv in c["clears"] if c["node_of"][cv] == node] + [-1])
+            total = None
+            for k, pi in enumerate(c["passes"]):
+                if pi < last_clear:
+                    continue
+                ob = rust[roles["solo%d" % k]][gi]
+                if ob and ob[0][0] == 4:
+                    total = list(ob[0][2]) if total is None else [a + b for a, b in zip(total, ob[0][2])]
+            ob = rust[ia][gi]
+            got = list(ob[0][2]) if ob and ob[0][0] == 4 else None
+            if got != total:
+                fails.append({"case": ia, "confirmed": True,
+                              "reason": "variable %d: gradient after the history is %s, the stand-alone passes since "
+                                        "its last clear sum to %s" % (var, got, total)})
+                break
+    return fails, n
+
+
+POST["additivity"] = post_additivity
+
+PROPS["C10"] = {
+    "gen": gen_C10,
+    "rule": "seeded random histories over a pool of 2-4 leaves: 3-12 steps of graph construction, backward(seed or none) "
+            "on any live operation node (the same result again, interior nodes, enclosing results), gradient clearing by "
+            "replace_gradient and by gradient_mut, handle drops; gradients of every leaf and operation handle after each "
+            "pass; integer data (exact).  For every history each pass is also run alone on a fresh instance of the same "
+            "construction, and additivity (final gradient = sum of the stand-alone passes since the last clear) is "
+            "evaluated on corgi's outputs alone; distinct = distinct program text",
+    "exhaustive": {"quick": False, "thorough": False},
+    "assumptions": ["passes that panic are excluded (they may leave residue; not claimed)"],
+    "post": ["additivity"],
+}
+
+
+# ======================================================================================
+# C18 dropping results releases everything they held
+
+def gen_C18(tier, rng):
+    cases = []
+    count = 400 if tier == "quick" else 5000
+    for n in range(count):
+        exact = n % 4 != 3
+        h = History(rng, exact=exact, max_rank=rng.choice([2, 3]), track_p=0.75)
+        for _ in range(rng.randint(1, 3)):
+            h.leaf(h.rand_dims())
+        for _ in range(rng.randint(1, 9)):
+            if rng.random() < 0.12 and h.live_vars():
+                h.clone(rng.choice(h.live_vars()))
+            else:
+                h.step()
+        ops = [v for v in h.live_vars() if v.is_op]
+        mode = rng.choice(["no_pass", "pass", "pass", "two_passes", "pass_fetch"])
+        if ops and mode != "no_pass":
+            for _ in range(2 if mode == "two_passes" else 1):
+                root = rng.choice(ops)
+                h.emit(("backward", root.idx, h.seed_for(root)))
+            if mode == "pass_fetch":
+                for v in h.live_vars(lambda v: v.leaf):
+                    if rng.random() < 0.6:
+                        h.emit(("fetchgrad", v.idx))
+        # drop every handle that is not an original leaf handle, in random order
+        others = [v for v in h.live_vars() if not v.leaf]
+        rng.shuffle(others)
+        for v in others:
+            h.drop(v)
+        takes = []
+        leaves = h.live_vars(lambda v: v.leaf)
+        rng.shuffle(leaves)
+        for v in leaves:
+            takes.append(h.emit(("takevec", v.idx)))
+        c = case("release", h.ins, "release:%s" % mode, **({} if exact else {"rtol": 1e-7}))
+        c["takes"] = takes
+        c["adjudicate"] = takes
+        cases.append(c)
+    return cases
+
+
+def post_released(cases, rust, model):
+    fails = []
+    n = 0
+    for i, (c, r) in enumerate(zip(cases, rust)):
+        if "takes" not in c or r == ["timeout"]:
+            continue
+        n += 1
+        for t in c["takes"]:
+            if t >= len(r) or r[t] == "panic":
+                last = len(r) - 1
+                if r[last] == "panic" and c["instrs"][last][0] == "takevec":
+                    fails.append({"case": i, "confirmed": True,
+                                  "reason": "Vec::from on variable %d panicked although every result derived from it had "
+                                            "been dropped: something still holds its buffer" % c["instrs"][last][1]})
+                break
+    return fails, n
+
+
+POST["released"] = post_released
+
+PROPS["C18"] = {
+    "gen": gen_C18,
+    "rule": "seeded random graphs over 1-3 leaves (1-9 operations of every kind, clones), then no pass / one pass / two "
+            "passes / a pass followed by fetching gradients; every handle other than the original leaf handles is "
+            "dropped in random order and Vec::<Float>::from is called on every leaf (must succeed, with and without "
+            "stored gradients); model programs: after the next forward the previous iteration's input is sole owner of "
+            "its buffer; compared with the model's ownership count and adjudicated directly (no panic); distinct = "
+            "distinct program text",
+    "exhaustive": {"quick": False, "thorough": False},
+    "assumptions": ["what the allocator frees and leaks that bypass Rc (mem::forget) are not observable here"],
+    "post": ["released"],
+}
+
+
+# ======================================================================================
+# C12 handle transparency
+
+def make_variant(c, rng):
+    """the same program with clones substituted for operands, handles dropped after their last use,
+    the pass started from a clone of the result and gradients read through clones"""
+    ins = c["instrs"]
+    last_use = {}
+    for i, x in enumerate(ins):
+        if x[0] == "op":
+            for a in x[2]:
+                last_use[a] = i
+        elif x[0] in ("backward", "grad"):
+            last_use[x[1]] = i
+    leaves = set(c["leaves"])
+    out = []
+    m = {}
+    dropped = set()
+    grads = {}
+    def emit(x):
+        out.append(x)
+        return len(out) - 1
+    for i, x in enumerate(ins):
+        if x[0] == "leaf":
+            m[i] = emit(x)
+        elif x[0] == "op":
+            args = []
+            for a in x[2]:
+                if rng.random() < 0.4:
+                    args.append(emit(("clone", m[a])))
+                else:
+                    args.append(m[a])
+            m[i] = emit(("op", x[1], args))
+            for a in set(x[2]):
+                if last_use.get(a) == i and a not in leaves and a not in dropped and rng.random() < 0.6:
+                    emit(("drop", m[a]))
+                    dropped.add(a)
+        elif x[0] == "backward":
+            r = m[x[1]]
+            if rng.random() < 0.5:
+                r = emit(("clone", r))
+            emit(("backward", r, x[2]))
+        elif x[0] == "grad":
+            hdl = m[x[1]]
+            if rng.random() < 0.4:
+                hdl = emit(("clone", hdl))
+            grads[x[1]] = emit(("grad", hdl))
+        else:
+            m[i] = emit(x)
+    v = case("variant", out, "variant")
+    v["grads_by_leaf"] = grads
+    v["adjudicate"] = sorted(grads.values())
+    return v
+
+
+def gen_C12(tier, rng):
+    cases = []
+    count = 300 if tier == "quick" else 4000
+    for n in range(count):
+        exact = n % 3 != 2
+        b = randprog.Builder(rng, exact=exact, max_rank=rng.choice([2, 3]))
+        root = b.build(rng.randint(2, 10))
+        c = graph_case("base", b, root, b.seed_for(root), "base:%s" % ("exact" if exact else "float"),
+                       **({} if exact else {"rtol": 1e-7}))
+        c["group"] = n + 1
+        c["role"] = "base"
+        c["grads_by_leaf"] = dict(c["grads"])
+        cases.append(c)
+        for k in range(3):
+            v = make_variant(c, rng)
+            v["group"] = n + 1
+            v["role"] = "variant%d" % k
+            if not exact:
+                v["rtol"] = 1e-7
+            cases.append(v)
+    return cases
+
+
+def post_variants_equal(cases, rust, model):
+    """corgi against corgi, bitwise: the variants must reproduce the base program's gradients"""
+    fails = []
+    n = 0
+    base = {}
+    for i, c in enumerate(cases):
+        if c.get("role") == "base" and "grads_by_leaf" in c:
+            base[c["group"]] = i
+    for i, c in enumerate(cases):
+        if not str(c.get("role", "")).startswith("variant") or c.get("group") not in base:
+            continue
+        ib = base[c["group"]]
+        if any(o in ("panic", "timeout") for o in rust[ib]):
+            continue
+        n += 1
+        if any(o in ("panic", "timeout") for o in rust[i]):
+            fails.append({"case": i, "confirmed": True,
+                          "reason": "the variant with clones/drops panicked while the original program did not"})
+            continue
+        for leaf, gi in cases[ib]["grads_by_leaf"].items():
+            a = rust[ib][gi]
+            b2 = rust[i][c["grads_by_leaf"][leaf]]
+            if repr(a) != repr(b2):
+                fails.append({"case": i, "confirmed": True,
+                              "reason": "gradient of leaf %d differs between the program and its variant with clones, "
+                                        "drops and re-bound handles: %s vs %s" % (leaf, a, b2)})
+                break
+    return fails, n
+
+
+POST["variants_equal"] = post_variants_equal
+
+PROPS["C12"] = {
+    "gen": gen_C12,
+    "rule": "seeded random programs (2-10 operations, every operation; two thirds integer-valued) each with three "
+            "variants: operands replaced by fresh clones (p=0.4 per operand), intermediate handles dropped right after "
+            "their last use (p=0.6), the pass started from a clone of the result (p=0.5), gradients read through a clone "
+            "of the leaf (p=0.4); corgi's gradients of the variant must equal corgi's gradients of the original bitwise, "
+            "and both agree with the model; distinct = distinct program text",
+    "exhaustive": {"quick": False, "thorough": False},
+    "assumptions": [],
+    "post": ["variants_equal"],
+}
